@@ -144,7 +144,10 @@ def residual_hash(src, fn, impl, spans):
     for a, b in sorted(spans):
         out.append(m[k:a]); out.append('/*SLICE*/'); k = b
     out.append(m[k:it.body_close + 1])
-    return sha256(re.sub(r'\s+', ' ', ''.join(out)).strip())
+    text = ''.join(out)
+    # logging statements are not behaviour (same rule as R1 of the Verus extraction)
+    text = re.sub(r'log::(?:debug|info|warn|error|trace)!\((?:[^;]|\n)*?\);', '', text)
+    return sha256(re.sub(r'\s+', ' ', text).strip())
 
 
 def add_direct_twins(body):
